@@ -99,10 +99,12 @@ class Job:
         self.case_list = []
 
     def run(self, seed):
-        cfg = write_cfg(f'_c19_{self.name}.cfg', self.consts,
+        # names are unique per process: concurrent C19 runs (e.g. a mutant
+        # evaluation next to a normal run) must not share scratch files
+        cfg = write_cfg(f'_c19_{self.name}_{os.getpid()}.cfg', self.consts,
                         self.invariants + (['PrintCase'] if self.cases else []),
                         view=not self.cases)
-        tag = f'c19_{self.name}'
+        tag = f'c19_{self.name}_{os.getpid()}'
         kw = dict(seed=seed + 11)      # also seeds RandomSubset (separators)
         if self.sim:
             kw = dict(simulate=f'num={self.sim}', depth=self.depth,
